@@ -293,6 +293,21 @@ pub enum Op {
     OverConsume {
         extra: u8,
     },
+    /// acquire a write window, fill `fill` samples, and keep the window open
+    HoldWrite {
+        fill: Sz,
+    },
+    /// commit from the held write window
+    CommitHeld {
+        commit: Sz,
+        tags: Vec<TagSpec>,
+    },
+    /// acquire a read window (checked) and keep it open
+    HoldRead,
+    /// re-check and consume from the held read window
+    ConsumeHeld {
+        consume: Sz,
+    },
 }
 
 pub fn op_strategy(tag_heavy: bool) -> impl Strategy<Value = Op> {
@@ -311,6 +326,11 @@ pub fn op_strategy(tag_heavy: bool) -> impl Strategy<Value = Op> {
         2 => Just(Op::Peek),
         1 => Just(Op::Commit0),
         if tag_heavy { 3 } else { 1 } => Just(Op::Consume0),
+        // windows held across operations of the other side
+        3 => sz_strategy().prop_map(|fill| Op::HoldWrite { fill }),
+        3 => (sz_strategy(), prop::collection::vec(tagspec_strategy(), 0..3)).prop_map(|(commit, tags)| Op::CommitHeld { commit, tags }),
+        3 => Just(Op::HoldRead),
+        3 => sz_strategy().prop_map(|consume| Op::ConsumeHeld { consume }),
     ]
 }
 
@@ -524,8 +544,20 @@ fn run_t<T: Elem>(pid: &str, case: &RingCase, focus: Focus, ctx: &mut Ctx) {
     // C02 non-triviality tracking
     let mut partial_consume_left_tags = false;
 
+    // windows held open across other operations: (window, filled, to_wrap at acquisition)
+    let mut held_w: Option<(BufferWriter<T>, usize, usize)> = None;
+    let mut held_r: Option<BufferReader<T>> = None;
     let all_ops = case.ops.iter().chain(case.terminal.iter());
     for (opi, op) in all_ops.enumerate() {
+        // one window per side: ops that would open a second one are skipped
+        let needs_w = matches!(op, Op::Write { .. } | Op::Commit0 | Op::OverCommit { .. } | Op::HoldWrite { .. });
+        let needs_r = matches!(op, Op::Read { .. } | Op::Peek | Op::Consume0 | Op::OverConsume { .. } | Op::HoldRead);
+        if (needs_w && held_w.is_some()) || (needs_r && held_r.is_some()) {
+            continue;
+        }
+        if matches!(op, Op::CommitHeld { .. }) && held_w.is_none() || matches!(op, Op::ConsumeHeld { .. }) && held_r.is_none() {
+            continue;
+        }
         let step = catch(|| -> Result<bool, (String, String)> {
             // returns Ok(true) if terminal
             match op {
@@ -607,6 +639,68 @@ fn run_t<T: Elem>(pid: &str, case: &RingCase, focus: Focus, ctx: &mut Ctx) {
                         }
                     }
                 }
+                Op::HoldWrite { fill } => {
+                    let mut w = ring.write_buf().map_err(|e| ("write_buf-err".to_string(), format!("{e}")))?;
+                    if w.len() != m.free() {
+                        return Err(("write-window-len".into(), format!("op#{opi}: write window has {} slots, model says {} free", w.len(), m.free())));
+                    }
+                    let to_wrap = m.cap - m.wpos();
+                    let k = fill.resolve(w.len(), to_wrap);
+                    for (i, slot) in w.slice().iter_mut().enumerate().take(k) {
+                        *slot = T::make(ctr + i as u64);
+                    }
+                    held_w = Some((w, k, to_wrap));
+                    ctx.class("write-window-held-across-ops");
+                }
+                Op::CommitHeld { commit, tags } => {
+                    let (w, k, to_wrap) = held_w.take().unwrap();
+                    let n = commit.resolve(k, to_wrap);
+                    let mut per: Vec<Vec<MTag>> = vec![Vec::new(); n];
+                    let mut tv = Vec::new();
+                    if n > 0 {
+                        for t in tags {
+                            let pos = t.pos.resolve(n, to_wrap);
+                            let val = t.val.to_tag_value();
+                            tv.push(Tag::new(pos, key_name(t.key), val.clone()));
+                            per[pos].push((key_name(t.key).to_string(), val));
+                        }
+                    }
+                    w.produce(n, &tv);
+                    for (i, p) in per.into_iter().enumerate() {
+                        m.q.push_back((T::make(ctr + i as u64).bits(), p));
+                    }
+                    ctr += n as u64;
+                    m.committed += n as u64;
+                    if focus == Focus::Samples {
+                        ctx.nontrivial();
+                    }
+                }
+                Op::HoldRead => {
+                    let (r, tags) = ring.read_buf().map_err(|e| ("read_buf-err".to_string(), format!("{e}")))?;
+                    check_window::<T>(&m, &r, &tags, opi, focus, ctx)?;
+                    held_r = Some(r);
+                    ctx.class("read-window-held-across-ops");
+                }
+                Op::ConsumeHeld { consume } => {
+                    let r = held_r.take().unwrap();
+                    // the held window still shows the first `len` samples of the model queue
+                    let got: Vec<u128> = r.slice().iter().map(|x| x.bits()).collect();
+                    for (i, g) in got.iter().enumerate() {
+                        if i >= m.q.len() || *g != m.q[i].0 {
+                            return Err((
+                                "read-mismatch".into(),
+                                format!("op#{opi}: sample {i} of a read window held across {} later commits changed to {g:#x}", m.q.len().saturating_sub(got.len())),
+                            ));
+                        }
+                    }
+                    let to_wrap = m.cap - m.rpos();
+                    let k = consume.resolve(r.len(), to_wrap);
+                    r.consume(k);
+                    for _ in 0..k {
+                        m.q.pop_front();
+                    }
+                    m.consumed += k as u64;
+                }
                 Op::OverCommit { extra } => {
                     let w = ring.write_buf().map_err(|e| ("write_buf-err".to_string(), format!("{e}")))?;
                     let n = w.len() + 1 + *extra as usize;
@@ -635,6 +729,16 @@ fn run_t<T: Elem>(pid: &str, case: &RingCase, focus: Focus, ctx: &mut Ctx) {
             // invariants after every op
             let free = ring.free();
             let total = ring.total_size();
+            if held_w.is_some() || held_r.is_some() {
+                // no further windows while one is held (streams cap the handle count)
+                if total != m.cap || free != m.free() {
+                    return Err((
+                        "capacity-accounting".into(),
+                        format!("op#{opi} {op:?}: total_size={total} free()={free}; model cap={} free={}", m.cap, m.free()),
+                    ));
+                }
+                return Ok(false);
+            }
             let rl = ring.read_buf().map_err(|e| ("read_buf-err".to_string(), format!("{e}")))?.0.len();
             let wl = ring.write_buf().map_err(|e| ("write_buf-err".to_string(), format!("{e}")))?.len();
             if total != m.cap || free != m.free() || rl != m.used() || wl != m.free() || rl + wl != total {
